@@ -17,7 +17,12 @@ import (
 	"verifsim/world"
 )
 
-const simRoot = "/sim/w/"
+// simRoot is where world files live: on the simulated disk by default; the
+// real-driver validation legs point it at a scratch directory on the real disk.
+var simRoot = "/sim/w/"
+
+// SetRoot changes the directory world files are named under (must end in "/").
+func SetRoot(r string) (old string) { old, simRoot = simRoot, r; return }
 
 // FileName is the name a world file has on the simulated disk.
 func FileName(w *world.World, p *world.Pkg, f world.File) string {
